@@ -127,6 +127,8 @@ def run_burst(world: World, actor_id: str, requests: list[dict], sched_seed: int
     for tid, label in burst.schedule:
         if label == "lock-wait":
             world.fired("db.lock_wait")
+        elif label == "applock-wait":
+            world.fired("app.lock_wait")
     conc_state = world.state()
     conc_abs = abstract_state(conc_state)
     # accepted CSRF tokens (one Token row of type 4 per accepted use); read now: every server start prunes them
